@@ -17,7 +17,7 @@ RULE = (
     "shape and dtype (up to byte order); every attribute is bool/int/float/str or nested "
     "list/tuple of those; repr(tree), _repr_html_() and nbytes of each node do not raise; for "
     "selections sel.shape == sel.values.shape. Non-trivial: level 1.1 or >=1 blank header field."
-    " Half of the products carry free-text summary entries that are left empty. Opens served from the cache are also given their request size as a byte budget text ('auto', '1kB', '64MiB', '100 B'), which the array class understands on that path (an open that rejects the text is not judged)."
+    " Half of the products carry free-text summary entries that are left empty, a quarter a summary section the reader has no table for. Opens served from the cache are also given their request size as a byte budget text ('auto', '1kB', '64MiB', '100 B'), which the array class understands on that path (an open that rejects the text is not judged)."
 )
 ASSUMPTIONS = ["NumPy scalar attribute values are accepted as plain scalars"]
 NOTES = __import__("collections").Counter()
@@ -147,6 +147,10 @@ def run_case(case):
         entries = product.default_summary_entries(spec, names)
         entries = [(s, k, "" if (s, k) in BLANKABLE and rng.random() < 0.5 else v) for s, k, v in entries]
         entries += [("Odi", "Remark", ""), ("Lbi", "Comment", rng.choice(["", " ", "x"]))]
+        if rng.random() < 0.5:
+            # a section the reader has no table for (a later format revision): whatever it does
+            # with it, no internal mapping may surface in the tree
+            entries += [("Brs", "BrowseImageName", "BRS-HH.jpg"), ("Brs", "CntOfBrowse", "1")]
         spec["summary_entries"] = entries
     files, info = product.build_product(spec)
     out = []
